@@ -6,6 +6,10 @@ package main
 import (
 	"fmt"
 	"go/types"
+	"os"
+	"path/filepath"
+	"strconv"
+	"strings"
 
 	"golang.org/x/tools/go/ssa"
 )
@@ -730,4 +734,94 @@ func ruleC01R9(c *Ctx) {
 		})
 	}
 	c.floor("C01.R9", "stores of localMap / workerMap", nMapOps, 2)
+}
+
+// R10: timer discipline on the delivery path. With the language version of this module (go.mod below 1.23) a
+// time.Timer's channel keeps a stale tick when the timer fired unobserved, and Reset does not drain it: the next select on
+// timer.C then takes the timeout branch at once — in channelInputBuffer.Flush that branch discards the batch. Every
+// (*time.Timer).Reset in the module must therefore be dominated by a Stop of the same timer and a drain of its channel
+// (`if !t.Stop() { select { case <-t.C: default: } }`). Today there is no Reset at all (every wait uses a fresh
+// time.After); the rule is armed for the day one appears.
+func init() {
+	register("C01", "C01.R10", ruleC01R10)
+	register("C18", "C01.R10", ruleC01R10)
+}
+
+func ruleC01R10(c *Ctx) {
+	// language version
+	legacy := true
+	if b, err := os.ReadFile(filepath.Join(c.P.repo, "go.mod")); err == nil {
+		for _, line := range strings.Split(string(b), "\n") {
+			f := strings.Fields(line)
+			if len(f) == 2 && f[0] == "go" {
+				parts := strings.Split(f[1], ".")
+				if len(parts) >= 2 {
+					maj, _ := strconv.Atoi(parts[0])
+					min, _ := strconv.Atoi(parts[1])
+					if maj > 1 || (maj == 1 && min >= 23) {
+						legacy = false
+					}
+				}
+			}
+		}
+	}
+	n := 0
+	timerKey := func(v ssa.Value) string {
+		if f := fieldOf(v); f != "" {
+			return "field " + f
+		}
+		return "value " + strip(v).Name()
+	}
+	for _, fn := range c.P.universe {
+		for _, s := range callsIn(fn) {
+			f := s.Common().StaticCallee()
+			if f == nil || extName(f) != "(*time.Timer).Reset" {
+				continue
+			}
+			n++
+			if !legacy {
+				c.ok("C01.R10", fn, "Timer.Reset on a drained timer", s.Pos(), "go.mod selects Go >= 1.23: Reset discards a stale tick itself")
+				continue
+			}
+			key := timerKey(s.Common().Args[0])
+			var stops []ssa.Instruction
+			for _, x := range callsIn(fn) {
+				g := x.Common().StaticCallee()
+				if g != nil && extName(g) == "(*time.Timer).Stop" && timerKey(x.Common().Args[0]) == key && dominatesInstr(x, s) {
+					stops = append(stops, x)
+				}
+			}
+			drained := false
+			for _, op := range chanOps(fn) {
+				if op.Kind != "recv" {
+					continue
+				}
+				// <-t.C of the same timer, after a dominating Stop and before the Reset
+				fa, ok := strip(op.Chan).(*ssa.UnOp)
+				if !ok {
+					continue
+				}
+				cf, ok := strip(fa.X).(*ssa.FieldAddr)
+				if !ok || fieldName(cf.X.Type(), cf.Field) != "time.Timer.C" || timerKey(cf.X) != key {
+					continue
+				}
+				for _, st := range stops {
+					q := &PathQ{P: c.P}
+					if hit, _ := q.Reach(after(st), func(in ssa.Instruction) bool { return in == op.In }); hit != nil {
+						q2 := &PathQ{P: c.P}
+						if hit2, _ := q2.Reach(after(op.In), func(in ssa.Instruction) bool { return in == s.(ssa.Instruction) }); hit2 != nil {
+							drained = true
+						}
+					}
+				}
+			}
+			c.check(len(stops) > 0 && drained, "C01.R10", fn, "Timer.Reset on a drained timer", s.Pos(),
+				"a Stop of the same timer dominates the Reset and its channel is drained in between",
+				"Reset of "+key+" without the stop-and-drain idiom (language version below 1.23): a tick left in the channel by an earlier, unobserved expiry makes the next wait time out at once — on the delivery path the timeout branch discards the batch in hand")
+		}
+	}
+	c.count("C01.R10:Timer.Reset calls", n)
+	if n == 0 {
+		c.ok("C01.R10", nil, "Timer.Reset on a drained timer", 0, "no (*time.Timer).Reset in the module: every timed wait uses a fresh timer (time.After)")
+	}
 }
